@@ -20,6 +20,8 @@ non-commuting and non-Pauli observables, measurements unsupported for the shot m
 """
 import warnings
 
+import os
+
 import numpy as np
 
 from pv.ctx import CaseTimeout, fingerprint
@@ -385,6 +387,8 @@ def run(ctx):
             ctx.ev("pre.executable")
             try:
                 # quimb's MPS gate application occasionally does not return for minutes (SVD sweeps in swap_sites_with_compress): watchdog
+                if os.environ.get("PV_TRACE_CASES"):
+                    print(f"TRACE case={gi} device={name}", flush=True)
                 with ctx.time_limit(90 if name.startswith("default.tensor") else 600, f"{name} raw execution"):
                     raw = dev.execute(tuple(out_tapes), config)
                     res = fn(raw)[0]
